@@ -99,9 +99,8 @@ func (n *Node) match(topic format.Topic, msgs *[][]byte) error {
 			}
 		}
 	} else {
-		if n.Children == nil {
-			n.Children = make(map[string]*Node)
-		}
+		// match runs under the tree's read lock: it must not write to the node
+		// (reading a nil map is fine)
 		if child, ok := n.Children[token]; ok {
 			if err := child.match(topic, msgs); err != nil {
 				return err
